@@ -147,8 +147,48 @@ def run_case(job):
     return out
 
 
+DYN_CFG = """
+INIT Init
+NEXT Next
+INVARIANT Sorted
+INVARIANT Aligned
+INVARIANT Stable
+INVARIANT Complete
+INVARIANT EmitCase
+"""
+
+
+def dynamics_job(case):
+    """Replay a history of add() calls on Dynamics and MeanFieldDynamics."""
+    import oqupy
+    from oqupy.dynamics import Dynamics, MeanFieldDynamics
+    out = []
+    adds = probes.norm_seq(case["adds"])
+    want = [tuple(x) for x in probes.norm_seq(case["content"])]
+    d = Dynamics()
+    m = MeanFieldDynamics()
+    for tag, t in enumerate(adds, start=1):
+        st = np.array([[tag, 0.0], [0.0, -tag]], dtype=complex)
+        d.add(0.25 * t, st)
+        m.add(0.25 * t, [st, st[:1, :1] * 2], complex(tag, -tag))
+    got = [(int(round(t / 0.25)), int(round(s[0, 0].real))) for t, s in zip(d.times, d.states)]
+    if got != want:
+        out.append({"what": "dynamics-content", "expected": want, "observed": got})
+    gm = [(int(round(t / 0.25)), int(round(f.real)), int(round(a[0, 0].real)), int(round(b[0, 0].real / 2)))
+          for t, f, a, b in zip(m.times, m.fields, m.system_dynamics[0].states, m.system_dynamics[1].states)]
+    if gm != [(t, g, g, g) for t, g in want]:
+        out.append({"what": "meanfield-dynamics-content", "expected": want, "observed": gm})
+    return out
+
+
 def run(ctx):
     quick = ctx.tier == "quick"
+    dr = ctx.tlc("DynamicsObj", DYN_CFG, label="Dynamics containers: every order of add()", workers=4,
+                 constants={"Times": "{-1, 0, 1, 2}", "MaxAdds": "4" if quick else "5", "Emit": "TRUE"})
+    for c, mm in zip(dr.cases, core.pmap(dynamics_job, dr.cases, chunksize=16)):
+        ctx.case({"adds": c["adds"]}, nontrivial=list(c["adds"]) != sorted(c["adds"]))
+        for x in mm:
+            ctx.violation("C13:Dynamics.add:%s" % x["what"], "adds=%s: %s" % (c["adds"], x), {"dynamics": c})
     apis_all = ["tempo", "mftempo", "pttempo", "cd", "cdf", "grad", "tebd"]
     jobs = []
     runs = [
@@ -187,6 +227,11 @@ def run(ctx):
 def replay(ctx, rep):
     core._init_worker()
     c = rep["case"]
+    if "dynamics" in c:
+        for x in dynamics_job(c["dynamics"]):
+            ctx.violation("C13:Dynamics.add:" + x["what"], str(x), c)
+        ctx.case(c)
+        return
     mm = run_case((c["case"], c["tick"]))
     ctx.case(c)
     for x in mm:
